@@ -12,10 +12,23 @@ def cmdWalk (j : Json) : Except String Json := do
     | none => Walk.run (fun _ => true) p
   return Json.mkObj [("items", toJson st.out), ("bad", st.bad)]
 
+def scriptFn (script : Array Attempts.Outcome) : Nat → Attempts.Outcome := fun k =>
+  if script.size = 0 then {} else script[min k (script.size - 1)]!
+
+def cmdAttempts (j : Json) : Except String Json := do
+  let retries : Int ← j.getObjValAs? Int "retries"
+  let pre : Bool ← j.getObjValAs? Bool "pre"
+  let script : Array Attempts.Outcome ← j.getObjValAs? (Array Attempts.Outcome) "script"
+  let r := Attempts.run retries pre (scriptFn script)
+  return Json.mkObj [("status", toJson r.status), ("calls", r.calls), ("failed", r.failed),
+    ("attempts", toJson (r.attempts.map fun a => Json.mkObj [("err", toJson a.err), ("resp", a.resp)])),
+    ("evs", toJson r.evs)]
+
 def dispatch (j : Json) : Except String Json := do
   let cmd ← j.getObjValAs? String "cmd"
   match cmd with
   | "walk" => cmdWalk j
+  | "attempts" => cmdAttempts j
   | "ping" => return "pong"
   | _ => throw s!"unknown cmd {cmd}"
 
